@@ -263,6 +263,18 @@ impl<'a> Hist<'a> {
             Ok(restored) => {
                 let dump = dump_unsealed(restored.verif_inner(), &self.w.names);
                 self.out.emit(&format!("restore {} {}", src, dst), &format!("ok {} {}", action_text(&restored.proposer_action().cloned()), dump));
+                // C08: the rebuilt state has the same header now, and the same header after the next block
+                let tips = s.verif_inner().verif_parts().tips.0;
+                let same_now = silent(|| restored.header() == s.header()).unwrap_or(false);
+                self.out.fact("C08", "restored-header-equals-original", same_now, "");
+                let act = Some(ProposerAction { fee_multiplier_delta: 3, reward_dest: Address(tmelcrypt::hash_single(b"c08")) });
+                let cont = silent(|| {
+                    let a = s.next_unsealed().seal(act).header();
+                    let b = restored.next_unsealed().seal(act).header();
+                    a == b
+                });
+                let detail = if tips > 0 { "pending-tips" } else { "no-pending-tips" };
+                self.out.fact("C08", "continuation-differs", cont == Ok(true), detail);
                 self.w.sealed.insert(dst.clone(), restored);
                 self.bump("op:restore");
                 Some(dst)
